@@ -69,7 +69,7 @@ fn parse(c: &Sx) -> Sx {
 fn parse_st(c: &Sx) -> Sx {
     let go = || -> Option<Sx> {
         let c = c.as_l()?;
-        if c.len() != 5 { return None; }
+        if c.len() != 5 && c.len() != 6 { return None; }
         c[1].as_l()?;
         let text = c[2].as_string()?;
         let mut st = crate::conv::sx_to_state(&c[3])?;
@@ -77,6 +77,13 @@ fn parse_st(c: &Sx) -> Sx {
         is.load();
         for n in c[4].as_l()? {
             is.add(n.as_string()?, pushr::push::instructions::Instruction::new(|_s, _c| {}));
+        }
+        if c.len() == 6 {
+            // history: the same InstructionSet has already executed these items on some other state
+            let mut scratch = PushState::new();
+            for x in c[5].as_l()?.iter().rev() { scratch.exec_stack.push(sx_to_item(x)?); }
+            let icache = is.cache();
+            for _ in 0..64 { if pushr::push::interpreter::PushInterpreter::step(&mut scratch, &mut is, &icache) { break; } }
         }
         PushParser::parse_program(&mut st, &is, &text);
         Some(state_to_sx(&st))
